@@ -71,6 +71,36 @@ pub(crate) mod proofs {
             kani::cover!(true, "end of harness reachable (vacuity guard)");
         }
 
+        /// adversarial environment: the instant the lock word is released, other threads may take the lock and do ANYTHING to the protected
+        /// state (head, buffer); the releasing thread must not depend on that state any more
+        static mut WATCHED_STACK: usize = 0;
+        fn release_then_the_environment_acts(a: &AtomicBool, v: bool, _o: std::sync::atomic::Ordering) {
+            unsafe {
+                *(a as *const AtomicBool as *mut bool) = v;
+                if !v && WATCHED_STACK != 0 {
+                    let s = &mut *(WATCHED_STACK as *mut S);
+                    let h: u32 = kani::any(); kani::assume(h <= N as u32);
+                    s.head = h;
+                    s.buffer = kani::any();
+                }
+            }
+        }
+
+        // @props C18
+        #[kani::proof] #[kani::unwind(3)] #[kani::stub(std::hint::spin_loop, noop)]
+        #[kani::stub(std::sync::atomic::Atomic::<bool>::store, release_then_the_environment_acts)]
+        fn pop_result_is_fixed_inside_the_critical_section() {
+            // linearizability of pop rests on the popped element being COPIED OUT while the lock is held: whatever other threads do to the
+            // stack after the release, the answer is the element that was on top at acquisition (a reference read after the unlock is not)
+            let (s, h, content) = any_stack();
+            unsafe { WATCHED_STACK = &s as *const S as usize; }
+            let got = s.pop();
+            if h > 0 { assert!(got == Some(content[h as usize - 1]),         "pop: the answer is the top element at lock acquisition, whatever happens after the release"); }
+            else     { assert!(got.is_none(),                                "pop on empty: None, whatever happens after the release"); }
+            kani::cover!(h > 0, "non-empty");
+            kani::cover!(true, "end of harness reachable (vacuity guard)");
+        }
+
         // @props C18
         #[kani::proof] #[kani::unwind(3)] #[kani::stub(std::hint::spin_loop, noop)]
         fn push_then_pop_returns_it_and_restores() {
